@@ -248,7 +248,9 @@ fn gen_hist(ctx: &mut Ctx, buf: BufKind) -> Hist {
         4 => {
             // out of memory: only with a fixed buffer; cut the stream right at the error
             if let BufKind::Arr(n) = buf {
-                let q: Vec<u8> = (0..n + 1 + rng.below(4)).map(|i| 0x21 + (i % 64) as u8).collect();
+                // zero bytes at and behind the capacity limit: the overflow may hit while zeros are being withheld
+                let zeros_at_limit = rng.chance(1, 2);
+                let q: Vec<u8> = (0..n + 1 + rng.below(5)).map(|i| if zeros_at_limit && i + 1 >= n && rng.chance(1, 2) { 0 } else { 0x21 + (i % 64) as u8 }).collect();
                 let f = ref_encode(&q);
                 let log = crate::core::guarded(|| {
                     let mut d = new_decoder(buf);
